@@ -60,6 +60,9 @@ def check(ck: Checker) -> None:
     from . import round7 as _r7
 
     _r7.meta_from_info_own_keys(ck, "C13.algo")
+    from . import round8 as _r8
+
+    _r8.fs_hash_by_requested_name(ck, "C13.algo")
     _r7.state_hit_full_meta(ck, "C13.hit")
 
 
